@@ -1,5 +1,8 @@
 use arc_swap::ArcSwapOption;
-use std::sync::Arc;
+use std::sync::{
+    atomic::{AtomicBool, AtomicUsize, Ordering as AtomicOrdering},
+    Arc,
+};
 
 use crate::{
     utils::{
@@ -93,12 +96,20 @@ where
         if let Message::Handshake(sink) = message {
             let outer_talkback: Arc<ArcSwapOption<Source<R>>> = Arc::new(ArcSwapOption::from(None));
             let inner_talkback: Arc<ArcSwapOption<Source<T>>> = Arc::new(ArcSwapOption::from(None));
+            // an inner source may greet after the call that subscribed it has returned: until then it
+            // has no talkback, so whether an inner is in progress, which one is the current one, and
+            // whether the output is over are kept apart from the talkback cells
+            let inner_live = Arc::new(AtomicBool::new(false));
+            let inner_gen = Arc::new(AtomicUsize::new(0));
+            let ended = Arc::new(AtomicBool::new(false));
             let talkback: Arc<Source<T>> = Arc::new(
                 {
                     #[cfg(feature = "tracing")]
                     let flatten_span = flatten_span.clone();
                     let outer_talkback = Arc::clone(&outer_talkback);
                     let inner_talkback = Arc::clone(&inner_talkback);
+                    let inner_live = Arc::clone(&inner_live);
+                    let ended = Arc::clone(&ended);
                     move |message| {
                         instrument!(parent: &flatten_span, "sink_talkback");
                         trace!("from sink: {message:?}");
@@ -116,6 +127,8 @@ where
                                         Message::Pull,
                                         "to inner source: {message:?}"
                                     );
+                                } else if inner_live.load(AtomicOrdering::Acquire) {
+                                    // the inner source has not greeted yet: it is pulled when it does
                                 } else if let Some(outer_talkback) = &*outer_talkback.load() {
                                     call!(
                                         outer_talkback,
@@ -125,6 +138,7 @@ where
                                 }
                             },
                             Message::Error(_) | Message::Terminate => {
+                                ended.store(true, AtomicOrdering::Release);
                                 if let Some(inner_talkback) = &*inner_talkback.load() {
                                     call!(
                                         inner_talkback,
@@ -157,6 +171,9 @@ where
                             let sink = Arc::clone(&sink);
                             let outer_talkback = Arc::clone(&outer_talkback);
                             let inner_talkback = Arc::clone(&inner_talkback);
+                            let inner_live = Arc::clone(&inner_live);
+                            let inner_gen = Arc::clone(&inner_gen);
+                            let ended = Arc::clone(&ended);
                             match message {
                                 Message::Handshake(source) => {
                                     outer_talkback.store(Some(source));
@@ -175,6 +192,11 @@ where
                                             "to inner source: {message:?}"
                                         );
                                     }
+                                    inner_talkback.store(None);
+                                    // a previous inner source that has not greeted yet is told to
+                                    // stop when it does: it is no longer the current one
+                                    let my_gen = inner_gen.fetch_add(1, AtomicOrdering::AcqRel) + 1;
+                                    inner_live.store(true, AtomicOrdering::Release);
                                     call!(
                                         inner_source,
                                         Message::Handshake(Arc::new(
@@ -189,6 +211,18 @@ where
                                                     trace!("from inner source: {message:?}");
                                                     match message {
                                                         Message::Handshake(source) => {
+                                                            if ended.load(AtomicOrdering::Acquire)
+                                                                || inner_gen
+                                                                    .load(AtomicOrdering::Acquire)
+                                                                    != my_gen
+                                                            {
+                                                                call!(
+                                                                    source,
+                                                                    Message::Terminate,
+                                                                    "to inner source: {message:?}"
+                                                                );
+                                                                return;
+                                                            }
                                                             inner_talkback.store(Some(source));
                                                             let inner_talkback =
                                                                 inner_talkback.load();
@@ -213,6 +247,9 @@ where
                                                             panic!("source must not pull");
                                                         },
                                                         Message::Error(error) => {
+                                                            inner_live
+                                                                .store(false, AtomicOrdering::Release);
+                                                            ended.store(true, AtomicOrdering::Release);
                                                             if let Some(outer_talkback) =
                                                                 &*outer_talkback.load()
                                                             {
@@ -229,14 +266,17 @@ where
                                                             );
                                                         },
                                                         Message::Terminate => {
+                                                            inner_live
+                                                                .store(false, AtomicOrdering::Release);
+                                                            inner_talkback.store(None);
                                                             if outer_talkback.load().is_none() {
+                                                                ended.store(true, AtomicOrdering::Release);
                                                                 call!(
                                                                     sink,
                                                                     Message::Terminate,
                                                                     "to sink: {message:?}"
                                                                 );
                                                             } else {
-                                                                inner_talkback.store(None);
                                                                 let outer_talkback =
                                                                     outer_talkback.load();
                                                                 let outer_talkback =
@@ -262,6 +302,7 @@ where
                                     panic!("source must not pull");
                                 },
                                 Message::Error(error) => {
+                                    ended.store(true, AtomicOrdering::Release);
                                     if let Some(inner_talkback) = &*inner_talkback.load() {
                                         call!(
                                             inner_talkback,
@@ -272,10 +313,10 @@ where
                                     call!(sink, Message::Error(error), "to sink: {message:?}");
                                 },
                                 Message::Terminate => {
-                                    if inner_talkback.load().is_none() {
+                                    outer_talkback.store(None);
+                                    if !inner_live.load(AtomicOrdering::Acquire) {
+                                        ended.store(true, AtomicOrdering::Release);
                                         call!(sink, Message::Terminate, "to sink: {message:?}");
-                                    } else {
-                                        outer_talkback.store(None);
                                     }
                                 },
                             }
